@@ -378,7 +378,12 @@ pub fn judge_fault_free(plan: &ClientPlan, run: &ClientRun) -> Judged {
                 let want_cf = if is_commit { (0x06, 0x23) } else { (0x06, 0x25) };
                 if pk.is_empty() || pk[0].cf != want_cf {
                     j.fail("C07", "reversal_request", name, format!("accepted {name} must first send {:02x} {:02x}, sent {:?}", want_cf.0, want_cf.1, pk.iter().map(|p| p.cf).collect::<Vec<_>>()));
-                    continue;
+                    // closed with the other kind of reversal of the same receipt: the transaction is
+                    // closed on the terminal all the same, so the rules about what follows still apply
+                    let other_reversal = pk.first().map(|p| matches!(p.cf, (0x06, 0x23) | (0x06, 0x25)) && p.get_bcd(0x87) == Some(receipt as u64) && p.get(0x87) != Some(&[0xff, 0xff][..])).unwrap_or(false);
+                    if !other_reversal {
+                        continue;
+                    }
                 }
                 let p = pk[0];
                 // C07: exactly that token's receipt number
@@ -470,6 +475,14 @@ pub fn judge_fault_free(plan: &ClientPlan, run: &ClientRun) -> Judged {
                                 // the terminal refused that reversal: the reported pre-authorisation
                                 // is still open, so end-of-day must not be requested over it
                                 j.stats.hit("probe.dangling_reversal_refused");
+                                // C20: that abort, too, surfaces as an error identifying its code
+                                if let EndSpec::Abort(c) = cleanup.cancel.end {
+                                    if o.result.is_ok() {
+                                        j.fail("C20", "abort_as_success", name, format!("the terminal aborted the reversal of the dangling pre-authorisation {r2} with 0x{c:02x} but {name} returned Ok"));
+                                    } else if let Err(e) = identifies_code(&o.result, c, false) {
+                                        j.fail("C20", "abort_code", name, format!("the terminal aborted the reversal of the dangling pre-authorisation {r2} with 0x{c:02x}: {e}"));
+                                    }
+                                }
                                 if rest[k..].iter().any(|q| q.cf == (0x06, 0x50)) {
                                     j.fail(
                                         "C19",
